@@ -1022,6 +1022,11 @@ class Interp:
         if name == "exists":
             return not is_empty(self.val(args[0]))
         if name in ("all", "missing"):
+            if len(args) == 0:
+                # docs/functions/all.md: "True if all headers contain data ... the number of headers and row
+                # columns must be equal"
+                r = len(self.rec) == len(self.headers) and all(not is_empty(c) for c in self.rec)
+                return r if name == "all" else not r
             if len(args) < 2:
                 raise Undefined("all()/missing() with fewer than two arguments")
             r = all(not is_empty(self.val(a)) for a in args)
